@@ -43,8 +43,9 @@ func init() {
 		seed := fs.Int64("seed", 1, "seed")
 		nsw := fs.Int("nsw", 10, "seeded mesh cases")
 		nsr := fs.Int("nsr", 10, "seeded record-list cases")
+		nsb := fs.Int("nsb", 0, "seeded record-list cases for the record-level API (stl.Read / stl.Write)")
 		maxtris := fs.Int("maxtris", 200, "max triangles")
 		_ = fs.Parse(args)
-		return objstl.GenStlRandom(*out, *seed, *nsw, *nsr, *maxtris)
+		return objstl.GenStlRandom(*out, *seed, *nsw, *nsr, *nsb, *maxtris)
 	}
 }
